@@ -141,6 +141,21 @@ fn check(case: &str) -> Option<String> {
             if lexpr::to_vec(&v).unwrap() != lexpr::to_string(&v).unwrap().into_bytes() { return Some("to_vec / to_string disagree".into()); }
             if format!("{}", v) != lexpr::to_string(&v).unwrap() { return Some("Display / to_string disagree".into()); }
             if std::str::from_utf8(&lexpr::to_vec(&v).unwrap()).is_err() { return Some("to_vec output is not UTF-8".into()); }
+            // one Printer object used for several values (and written to directly through its own io::Write impl): the sink receives the texts one after the other
+            for k in [1usize, 2, usize::MAX] {
+                let all = values();
+                let mut want: Vec<u8> = vec![];
+                let mut pr = print::Printer::new(Sink { out: vec![], per_call: k, fail_at: None, fail_call: None, calls: 0, zero_call: None });
+                let mut pc = print::Printer::with_options(Sink { out: vec![], per_call: k, fail_at: None, fail_call: None, calls: 0, zero_call: None }, print::Options::default());
+                for (i, x) in [&v, &all[0], &v, &all[all.len() - 1]].iter().enumerate() {
+                    if pr.print(x).is_err() || pc.print(x).is_err() { return Some("Printer::print fails on a sink that accepts bytes".into()); }
+                    want.extend_from_slice(lexpr::to_string(x).unwrap().as_bytes());
+                    if i % 2 == 0 { if pr.write_all(b" \n").is_err() || pc.write_all(b" \n").is_err() { return Some("writing through Printer's io::Write impl fails".into()); } want.extend_from_slice(b" \n"); }
+                }
+                let (a, b) = (pr.into_inner().out, pc.into_inner().out);
+                if a != want { return Some(format!("one Printer used for four values (sink takes {} bytes per call) delivered {:?}, the texts are {:?}", k, String::from_utf8_lossy(&a), String::from_utf8_lossy(&want))); }
+                if b != want { return Some(format!("one customised Printer (default options) used for four values delivered {:?}, the texts are {:?}", String::from_utf8_lossy(&b), String::from_utf8_lossy(&want))); }
+            }
             // the serde companion crate prints through the same printer: its writer entry points against short-writing and failing sinks
             #[cfg(feature = "with-serde")]
             {
